@@ -121,6 +121,17 @@ CLAIMED = {
    design_ref="DESIGN.md section 7 C01",
    note="Partial: write-path termination and the scanner's byte-preservation are not theorems (fuel / evaluated per case); codec round trip assumed.",
    technique="Lean 4 proof (accounting invariant over API calls, fuel-sufficiency for the manual split loop) + differential correspondence incl. real CLI tools"),
+ 'C03': dict(
+   text="PARTIAL proof (Lean 4): the model of the header/index parser (read_lead, read_header_from_file, read_preface incl. the "
+        "optional-element loop, read_index/index_read, read_sig) performs no read outside the header buffer for EVERY byte string and pin "
+        "setting, every model function is total, and the optional-element cursor can neither move backwards nor leave the header. Everything "
+        "else of the property (use-after-free, double free, UB in unmodelled code, the tools) is only SEARCHED: the real sources and the CLI "
+        "tools are built with ASan+UBSan and run, with timeouts, on valid files and re-sealed field mutants; any crash, report or hang is a "
+        "violation, and all library results must equal the Lean models'.",
+   design_ref="DESIGN.md section 7 C03",
+   note="Partial by nature of the technique: memory safety of C is not expressible in the model beyond explicit bounds-checked reads; "
+        "allocation failures are modelled with a platform threshold (2^40).",
+   technique="Lean 4 proof (NoOob predicate over the monadic parser model, bind lemma, induction over the entry/optional-element loops) + sanitizer runs as search and correspondence"),
 }
 
 NOT_YET = "machinery for this property is not built yet in this snapshot (work in progress; see DESIGN.md section 11 build order)"
